@@ -16,6 +16,7 @@ POP_RULE = ("runs = generated (optimizer, task, configuration, seed, mode) tuple
             "multi-objective / discrete / binary / mixed / permutation tasks, 8 bound regimes, min and max, population 1x..3x the "
             "documented scale, cycle budgets 1..5, all stop criteria, serial/thread/process; every run replayed by TLC "
             "(TracePop.tla); distinct = (optimizer, encoding, mode, direction, stop reason)")
+INST = {"C07", "C08", "C18"}
 POP = {"C01", "C02", "C03", "C05", "C06", "C09", "C10", "C15", "C17"}
 TABLE = {
     "C13": ("c13", "", None),
@@ -35,6 +36,8 @@ def main(argv=None) -> int:
     pid = a.pid.upper()
     if pid in POP:
         TABLE[pid] = ("popchecks", POP_RULE, None)
+    if pid in INST:
+        TABLE[pid] = ("instance", "", None)
     if pid not in TABLE:
         print(f"unknown property {pid}", file=sys.stderr)
         return 2
@@ -49,9 +52,9 @@ def main(argv=None) -> int:
                 mod.replay(chk, rec)
             else:
                 print(f"replaying by re-running the {a.tier} check; recorded key: {rec.get('key')}")
-                (mod.main_for(chk, pid) if pid in POP else mod.main(chk))
+                (mod.main_for(chk, pid) if pid in POP | INST else mod.main(chk))
         else:
-            (mod.main_for(chk, pid) if pid in POP else mod.main(chk))
+            (mod.main_for(chk, pid) if pid in POP | INST else mod.main(chk))
     except MachineryError as ex:
         chk.machinery.append(str(ex)[:4000])
     except Exception:
